@@ -42,6 +42,8 @@ func execute(c *drv.Ctx, d M) bool {
 	switch drv.Str(d["kind"]) {
 	case "drain":
 		return execDrain(c, d)
+	case "reuseseq":
+		return execReuseSeq(c, d)
 	}
 	cacheMu.Lock()
 	r, ok := cache[key(d)]
@@ -459,4 +461,7 @@ func generate(c *drv.Ctx) {
 
 	// (4) KeepAliveTransport body: Read-size sequences then Close
 	generateDrain(c, thorough)
+
+	// (5) real transport, connection reuse, the end of the response body arrives late: sequential calls on one Runtime
+	generateReuseSeq(c, thorough)
 }
